@@ -12,7 +12,7 @@ CLAIMS = {
             'Every string over the stated alphabets (all single printable characters incl. TAB and 3 non-ASCII code '
             'points, all pairs, class-representative triples, quote-alphabet strings up to length 6 in the thorough '
             'tier) is placed in every argument position of a generated build script (command argument/word/'
-            'environment, build_step, test, test_driver children, compile/link/global options in list form and as one '
+            'environment incl. a command given as one shell line, build_step, test, test_driver children, compile/link/global options in list form and as one '
             'string that bfg9000 splits by sh rules, CPPFLAGS/CFLAGS/LDFLAGS/LDLIBS at configure time, define values, '
             'include directories, files and directories named inside a command); bfg9000 generates the Makefile, the real make and sh run it, and the stub toolchain records '
             'the argv/environ each process received; the oracle is identity. Exhaustive within the bounds; batches '
